@@ -171,11 +171,11 @@ class Prop:
                 pres = [p for k, p in enumerate(pres) if k % len(cfgs) == ci or k < 2]
             for k, pre in enumerate(pres):
                 # thorough: depth 3 after the prefixes assigned to this configuration
-                # (every prefix gets depth 3 under one configuration), depth 2 elsewhere;
+                # (the first five prefixes get depth 3, each under one configuration), depth 2 elsewhere;
                 # depth 3 after all 14 prefixes x 4 configurations is 1.2M cases and
                 # does not fit in memory
                 dp = depth
-                if tier != 'quick' and k % len(cfgs) != ci:
+                if tier != 'quick' and k != ci:
                     dp = 2
                 for d in range(0, dp + 1):
                     if d < dp and pre:
